@@ -131,6 +131,22 @@ def make_case(seed, i):
         # reads of imported-looking names so that operations on them are observed
         for _ in range(r.randint(0, 2)):
             prog.append(["expr", ["load", r.choice(G.NAMES), [r.choice(G.ATTRS)]]])
+    if r.random() < .1:
+        # a class statement nested in a function; its CLASS-LEVEL statements are the only readers of a top-level import that
+        # stands after the def (and before the call: registered functions run after the module)
+        fn, cn, al = "fk%d" % len(prog), "kc%d" % len(prog), "ki%d" % len(prog)
+        P = {"posonly": [], "args": [], "vararg": None, "kwonly": [], "kwarg": None, "defaults": [], "kw_defaults": []}
+        cbody = [["assign", [["n", "cv"]], ["load", al, [r.choice(G.ATTRS)]]]]
+        if r.random() < .5:
+            cbody.append(["expr", ["op", "call", [["load", al, [r.choice(G.ATTRS)]], ["load", al, []]]]])
+        fbody = [["class", cn, [], [], [], cbody]]
+        if r.random() < .4:
+            fbody.insert(0, ["expr", ["load", r.choice(G.NAMES), [r.choice(G.ATTRS)]]])
+        prog += [["def", fn, [], P, None, fbody],
+                 ["assign", [["n", fn]], ["op", "call", [["load", G.REG, []], ["load", fn, []]]]]]
+        for _ in range(r.randint(0, 2)):
+            prog.append(["expr", ["load", r.choice(G.NAMES), [r.choice(G.ATTRS)]]])
+        prog.append(r.choice([["from", ["m"], [["d", al]]], ["import", [[["pkg", "sub"], al]]]]))
     if r.random() < .06:
         # a store to an imported name inside a block that does not execute (`if 0:` / `while 0:`), the name read afterwards
         tops = [n for st in prog if st[0] in ("import", "from") and st[1] != ["__future__"] for n in c05.stmt_binds(st)]
